@@ -363,6 +363,30 @@ def gen_case(r, version):
         x = r.random()
         named = [i for i, rec in enumerate(st_.model.recs) if M.name_of(rec) is not None]
         names = st_.model.names()
+        if gen.fair(r, 0.07) and st_.model.segment_names():
+            # a line that is read before a segment it mentions, then that segment, then the segment renamed: the
+            # mention has to follow (containments and links in GFA1, edges and gaps in GFA2, either side)
+            free = [n for n in H.POOL["S"] if n not in names and n not in st_.model.undefined_mentions()]
+            fresh = [n for n in H.FRESH[20:26] if n not in names and n not in st_.model.undefined_mentions()]
+            a = gen.choice(r, st_.model.segment_names())
+            if free and fresh and "," not in a:
+                f_ = free[0]
+                o1, o2 = gen.choice(r, "+-"), gen.choice(r, "+-")
+                x_, y_ = (a, f_) if gen.chance(r, 0.5) else (f_, a)
+                if version == "gfa1":
+                    line = gen.choice(r, [["C", [x_, o1, y_, o2, "0", "*"], []], ["L", [x_, o1, y_, o2, "*"], []]])
+                    if line[0] == "L" and M.ends_key(*line[1][:4]) in st_.ov_policy:
+                        line = ["C", [x_, o1, y_, o2, "0", "*"], []]
+                else:
+                    line = gen.choice(r, [["G", ["*", x_ + o1, y_ + o2, "5", "*"], []], ["F", [f_, "read1" + o1, "0", "0", "0", "0", "*"], []]])
+                H.model_add(st_, line)
+                ops.append(["add", line, False])
+                seg = H.new_segment(st_, r, f_, tags=False)
+                H.model_add(st_, seg)
+                ops.append(["add", seg, False])
+                i_ = [j for j, x in enumerate(st_.model.recs) if x.rt == "S" and x.pos[0] == f_][0]
+                ops.append(rename_op(st_, r, i_, fresh[0]))
+                continue
         pend = sorted(st_.model.undefined_mentions())
         if pend and named and gen.fair(r, 0.08):
             i = gen.choice(r, named)
